@@ -138,6 +138,13 @@ pub(crate) struct Members<T> {
     num_active: usize,
 }
 
+#[cfg(feature = "verif-hooks")]
+impl<T> Members<T> {
+    pub(crate) const fn verif_cursor(&self) -> usize {
+        self.cursor
+    }
+}
+
 #[cfg(test)]
 impl<T> Members<T> {
     pub(crate) fn len(&self) -> usize {
